@@ -1,4 +1,26 @@
-(* placeholder until the proofs are integrated *)
-From DictIO Require Import Chars Str Value Scalar.
-Theorem C08_placeholder : True. Proof. exact I. Qed.
-Print Assumptions C08_placeholder.
+(* C08  Results do not depend on working directory, path spelling or earlier operations (logic part: the
+   placeholder counter; the rest is observed by replaying operations after different prefixes / cwd). *)
+From Coq Require Import NArith ZArith List Bool.
+From DictIO Require Import Chars Str Value Scalar Lexer MiscSpec CliProofs.
+Import ListNotations.
+
+(* the counter stays within the six digits of a placeholder, whatever its history *)
+Theorem C08_counter_range : forall n c, counter_ok c -> (0 <= counter_iter (S n) c <= 999999)%Z.
+Proof. exact counter_range. Qed.
+Print Assumptions C08_counter_range.
+
+(* ids handed out within one operation are pairwise distinct, also across the wrap-around, as long as fewer
+   than 10^6 are drawn: so placeholder entries never collide, whatever value the counter started from *)
+Theorem C08_ids_distinct : forall c n m, counter_ok c -> (n < m)%nat -> (m - n < 1000000)%nat ->
+  counter_iter (S n) c <> counter_iter (S m) c.
+Proof. exact counter_distinct. Qed.
+Print Assumptions C08_ids_distinct.
+
+(* the k-th id after a start value is that value plus k modulo 10^6 *)
+Theorem C08_counter_closed_form : forall n c, counter_ok c ->
+  counter_iter (S n) c = ((c + 1 + Z.of_nat n) mod 1000000)%Z.
+Proof. exact counter_closed_form. Qed.
+Print Assumptions C08_counter_closed_form.
+
+Example C08_wrap : counter_iter 3 999998%Z = 1%Z /\ counter_ok 999998%Z.
+Proof. split; [vm_compute; reflexivity | unfold counter_ok; split; discriminate]. Qed.
